@@ -39,6 +39,8 @@ func schedScenarios(prop, tier string) []*Scenario {
 		return c12Scenarios(tier)
 	case "C15":
 		return c15Scenarios(tier)
+	case "C18":
+		return c18Scenarios(tier)
 	}
 	return nil
 }
